@@ -304,6 +304,8 @@ Proof.
         pose proof (resume_facts r c k o x w I W F) as [H1 H2]; destruct (resume r c k o) as [[c' k'] o'] end.
       cbn [fst snd] in *. split; [exact H1|]. cbn [cp]. rewrite H2. discriminate.
     + split; [assumption|]. cbn [cp cprwait]. intros Hc. discriminate.
+  - destruct (patched (en s)); split; assumption.
+  - destruct (patched (en s)); split; assumption.
 Qed.
 
 Lemma SI_init : forall c r, SI (init2 c r).
